@@ -655,11 +655,14 @@ Definition unmonitor (E : env) (o : obj) : M unit :=
   modify (fun s => set_b_monitors (ddel (b_monitors s) o) s) ;;;
   reset_checkpoint_state.
 
-(* the closure emit_event of monitor(): it keeps the compose_event of the descriptor made by monitor() *)
+(* the closure emit_event of monitor(): it captures the stream name (here: the name of the descriptor made by
+   monitor()) and composes its events with the descriptor registered for that name at call time
+   (self._descriptors[name].compose_event; KeyError if none is registered) *)
 Definition run_closure (cb : nat) (r : reading) : M unit :=
   s <- get ;;
   od <- of_opt (dget (w_closures s) cb) EUnmodelled ;;
-  ev <- compose_event (snd od) (dupdate [] r) [] ;;
+  d <- of_opt (dget (b_descriptors s) (de_name (snd od))) EKeyError ;;
+  ev <- compose_event d (dupdate [] r) [] ;;
   emit ev.
 
 Definition mon_event (o : obj) (r : reading) : M unit :=
